@@ -1299,6 +1299,40 @@ impl<'a> Run<'a> {
             Step::MultiRead { keys, variant } => {
                 if keys.iter().any(|k| self.at_deadline(*k)) { return; }
                 if self.cfg.hit_only && keys.iter().any(|k| !self.readable(*k)) { return; }
+                // an iterator is also consumed through the adaptors every Iterator has: nth(n) must yield the item of position n, and what
+                // follows it the items after. Whether the skipped keys are looked up is the iterator's business: the lookup count is re-read.
+                if *variant % 3 != 0 && keys.len() >= 2 && !self.cfg.hit_only && self.rng.chance(1, 3) {
+                    let cache = self.sut.cache.clone();
+                    let refs: Vec<&u64> = keys.iter().collect();
+                    let name = ["multi_get_iterator/nth", "multi_get_map_iterator/nth"][(*variant % 3) - 1];
+                    let n = self.rng.range(1, keys.len() as u64 - 1) as usize;
+                    let before = self.sut.stat(StatsType::CacheHits) + self.sut.stat(StatsType::CacheMisses);
+                    let (picked, rest): (Option<Option<u64>>, Vec<Option<u64>>) = if *variant % 3 == 1 { let mut it = cache.multi_get_iterator(refs); (it.nth(n), it.collect()) }
+                        else { let mut it = cache.multi_get_map_iterator(refs, |v| v); (it.nth(n), it.collect()) };
+                    let looked_up = self.sut.stat(StatsType::CacheHits) + self.sut.stat(StatsType::CacheMisses) - before;
+                    let judged = 1 + rest.len() as u64;
+                    let looked_up = if self.noise_on { keys.len() as u64 } else { looked_up };
+                    if looked_up < judged || looked_up > keys.len() as u64 {
+                        self.fail(&["C16"], "C16/hits-plus-misses-differs-from-lookups".into(), format!("{} over {} keys (n = {}) was counted as {} lookups", name, keys.len(), n, looked_up));
+                        return;
+                    }
+                    self.lookups += looked_up;
+                    match picked {
+                        None => { self.fail(&["C02"], format!("C02/multi-read-length/{}", name), format!("{}({}) over {} keys yielded nothing", name, n, keys.len())); return; }
+                        Some(value) => self.judge_read(keys[n], value, name, "item picked with nth()"),
+                    }
+                    if self.stop { return; }
+                    if rest.len() != keys.len() - n - 1 {
+                        self.fail(&["C02"], format!("C02/multi-read-length/{}", name), format!("after nth({}) an iterator over {} keys yielded {} more items", n, keys.len(), rest.len()));
+                        return;
+                    }
+                    for (key, value) in keys[n + 1..].iter().zip(rest.into_iter()) {
+                        if self.stop { return; }
+                        self.judge_read(*key, value, name, "item after nth()");
+                    }
+                    self.counts.inc("iterators_consumed_through_nth");
+                    return;
+                }
                 self.lookups += keys.len() as u64;
                 let got = read_multi_raw(&self.sut.cache, *variant, keys);
                 let name = ["multi_get", "multi_get_iterator", "multi_get_map_iterator"][*variant % 3];
